@@ -52,8 +52,8 @@ def execute_script(engine, script, limit_s=None, attempts=2):
     """One execution of a script in a fresh environment.  Pure function of the
     script, the code under /repo and PYTHONHASHSEED.
 
-    A run normally takes milliseconds; one that does not return within limit_s seconds
-    (a non-terminating library call) is executed once more with twice the limit and, if it
+    A run normally takes milliseconds; one that does not return within limit_s seconds of
+    CPU time (a non-terminating library call) is executed once more with twice the limit and, if it
     still hangs, reported as a violation of `<prop>.terminates` at the operation it hangs in."""
     import signal
 
@@ -62,8 +62,13 @@ def execute_script(engine, script, limit_s=None, attempts=2):
         ctx = Ctx(engine.prop)
         ctx.ev("seed", script.get("seed"), "profile", script.get("profile"))
         nontrivial = False
-        old = signal.signal(signal.SIGALRM, _alarm)
-        signal.setitimer(signal.ITIMER_REAL, limit_s * attempt)
+        # CPU time of this process, not wall-clock: a loaded machine must not turn a slow run
+        # into a "hang" (a non-terminating library call burns CPU, so it is still caught)
+        old = signal.signal(signal.SIGPROF, _alarm)
+        old_real = signal.signal(signal.SIGALRM, _alarm)
+        signal.setitimer(signal.ITIMER_PROF, limit_s * attempt)
+        # wall-clock backstop, ten times larger (a run blocked in swap burns no CPU)
+        signal.setitimer(signal.ITIMER_REAL, 10 * limit_s * attempt)
         try:
             nontrivial = engine.execute(script, ctx)
             break
@@ -80,8 +85,10 @@ def execute_script(engine, script, limit_s=None, attempts=2):
                 }
                 ctx.ev("VIOLATION", f"{engine.prop}.terminates", "timeout")
         finally:
+            signal.setitimer(signal.ITIMER_PROF, 0)
             signal.setitimer(signal.ITIMER_REAL, 0)
-            signal.signal(signal.SIGALRM, old)
+            signal.signal(signal.SIGPROF, old)
+            signal.signal(signal.SIGALRM, old_real)
     return ctx.result(nontrivial)
 
 
@@ -104,7 +111,9 @@ def warmup(engine):
 
     Environment()
     for s in engine.warmup_scripts():
-        execute_script(engine, s, limit_s=600.0, attempts=1)
+        # generous limit (imports are done, but first executions are slower); a warm-up script
+        # that hangs is not a verdict -- the batch will meet the same behaviour and report it
+        execute_script(engine, s, limit_s=30.0, attempts=1)
 
 
 # --------------------------------------------------------------------- minimise
@@ -272,6 +281,13 @@ def minimise(engine, script, violation, quick=False):
 def worker_main(args):
     """args: dict from the parent.  Writes a JSON summary to args['out']."""
     faulthandler.enable()
+    try:
+        import resource
+
+        # a runaway library call must fail with MemoryError, not take the machine down
+        resource.setrlimit(resource.RLIMIT_AS, (8 << 30, 8 << 30))
+    except Exception:
+        pass
     prop, tier = args["prop"], args["tier"]
     w, W = args["w"], args["W"]
     engine = get_engine(prop)
@@ -358,7 +374,8 @@ def worker_main(args):
                     final = execute_script(engine, best)
                     if sig_class(final["violation"]) != sc_key:
                         raise HarnessError(
-                            f"minimised script lost its violation: seed {seed}"
+                            f"minimised script lost its violation: seed {seed}: found {v}, minimised script gives "
+                            f"{final['violation']}"
                         )
                     best["expect"] = {
                         "violation": final["violation"],
